@@ -1613,3 +1613,55 @@ func ruleTOCConfigFlow(r *Run) {
 	}
 	r.Min("api_functions_taking_toc_config", n, 2)
 }
+
+// ---------------------------------------------------------------------------
+// R-NESTED-UNTAINTED (C16): when a loop body is expanded for one item, the inner {{#each}} blocks
+// must be expanded BEFORE the item's own scalar fields are substituted.  If the text handed to the
+// recursive expansion already contains substituted values, an inner placeholder with the same name
+// as an outer field has been replaced by the outer value (and values can smuggle directives into
+// the nested pass).  Decided as a data-flow fact: the string argument of the recursive call does
+// not depend on any value-to-string conversion.
+// ---------------------------------------------------------------------------
+
+func ruleNestedUntainted(r *Run) {
+	p := r.P
+	conv := valueToStringFuncs(p)
+	sl := newSlicer(p)
+	sl.dataOnly = true
+	sl.maxDepth = 0
+	n := 0
+	for _, fn := range p.ModFuncs() {
+		if fn.Pkg == nil || fn.Pkg.Pkg.Path() != pkgDoc || fn.Parent() != nil {
+			continue
+		}
+		if fn.Signature.Recv() == nil || !typeIs(fn.Signature.Recv().Type(), pkgDoc, "TemplateEngine") {
+			continue
+		}
+		idx := 0
+		for _, g := range withClosures(fn) {
+			allInstrs(g, func(in ssa.Instruction) {
+				c, ok := in.(ssa.CallInstruction)
+				if !ok || staticCallee(c) != fn {
+					return
+				}
+				// string arguments of the recursive call
+				for ai, a := range c.Common().Args {
+					if !isStringType(a.Type()) {
+						continue
+					}
+					idx++
+					n++
+					bad := ""
+					for v := range sl.Slice(a).Vals {
+						if call, ok := v.(*ssa.Call); ok && conv[staticCallee(call)] {
+							bad = p.pos(call.Pos())
+						}
+					}
+					r.Check("nested-untainted", fmt.Sprintf("%s:arg%d#%d", shortName(fn), ai, idx), c.Pos(), bad == "",
+						fmt.Sprintf("%s expands nested blocks recursively; the text it passes down %s", shortName(fn), map[bool]string{true: "contains no substituted value yet", false: "already contains values substituted at " + bad + ": an inner placeholder that shares its name with a field of the enclosing item has been replaced by the enclosing item's value before the inner loop sees it"}[bad == ""]))
+				}
+			})
+		}
+	}
+	r.Min("recursive_template_expansions", n, 1)
+}
